@@ -213,10 +213,23 @@ def r14b(ctx, classes):
                                 ('bin', '*', ('bin', '*', ci_t, ('attr', SELF, 'scale')), S))
                         okz = poly.equal(_pow_atoms(zz), want) and \
                             sw[0][2][0] == ('attr', SELF, 'weight')
+                        # one sum per output channel: every axis of the weight but axis 0
+                        dim = dict(sw[0][3]).get('dim', sw[0][2][1] if len(sw[0][2]) > 1
+                                                 else None)
+                        axes = None
+                        if dim is not None and dim[0] == 'const':
+                            axes = {dim[1]}
+                        elif dim is not None and dim[0] in ('tuple', 'list') and \
+                                all(x[0] == 'const' for x in dim[1]):
+                            axes = {x[1] for x in dim[1]}
+                        rank = 4 if 'Conv2d' in ci.name else 3 if 'Conv1d' in ci.name else 2
+                        if axes is None or {a % rank for a in axes} != set(range(1, rank)):
+                            okz = False
                     ctx.ob('R14b', f'{ci.name}._zero_point [{lbl(p, 60)}]', okz,
                            'add_bias + clip_inf*2**shift - clip_inf*scale*sum(weight)' if okz else
                            f'zero point is {short(z, 220)}: the offset-signed activations are '
-                           f'not compensated with the clip_inf the layer clips/pads with',
+                           f'not compensated with the clip_inf the layer clips/pads with (the '
+                           f'weights summed per output channel, i.e. over every axis but 0)',
                            where(init, e.node))
                 pads = [e for e in p.events if e.kind == 'setattr' and e.data[0] == SELF and
                         e.data[1] == 'pad']
@@ -374,6 +387,15 @@ def r14c(ctx, classes):
                     else short(ub, 60)
             if is_call(t, 'torch.logical_or'):
                 f['overflow'] = short(_gen(t), 160)
+            if is_call(t, 'builtins.abs', 'torch.abs', 'math.fabs') and t[2] and \
+                    mentions(t, lambda x: x[0] == 'bin' and x[1] == '/'):
+                # the error a (scale, shift) pair is ranked by: |scale / 2**shift - target|
+                d = t[2][0]
+                shape = d[0] == 'bin' and d[1] == '-' and d[2][0] == 'bin' and d[2][1] == '/' and \
+                    d[2][3][0] == 'bin' and d[2][3][1] == '**' and d[2][3][2] == ('const', 2) and \
+                    d[2][3][3][0] == 'elem'
+                f['error'] = '|scale / 2**shift - target|' if shape else short(_gen(t), 120)
+        f.setdefault('error', 'no absolute error found')
         tgt = [e for e in p.events if False]
         # target = s_w * s_x / s_y
         tt = [x for x in subterms(p.retval)] and None
@@ -424,7 +446,8 @@ def r14c(ctx, classes):
                f'hold for the returned one', where(fn))
     ref_name = sorted(facts)[0]
     ref = facts[ref_name]
-    expected = {'upper_bound': 'two**(scale_bits - 1)', 'target': 's_w*s_x/s_y'}
+    expected = {'upper_bound': 'two**(scale_bits - 1)', 'target': 's_w*s_x/s_y',
+                'error': '|scale / 2**shift - target|'}
     for name, f in sorted(facts.items()):
         for k, v in expected.items():
             ctx.ob('R14c', f'{name}._integer_approximation {k}', f.get(k) == v,
